@@ -602,6 +602,13 @@ def check_rmse(desc, ctx):
     addp = bool(desc["add_point"]) and model == "Virial"
     if addp:
         kw["optimization_params"] = {"add_point": True}
+    # options handed through to the optimiser (a robust loss weighs the outliers down while fitting; the error reported
+    # afterwards is still the plain RMS deviation of the fitted curve)
+    opts = [None, None, {"loss": "soft_l1", "f_scale": 0.05}, {"loss": "huber", "f_scale": 0.02}, {"max_nfev": 4000},
+            {"loss": "cauchy", "f_scale": 0.1}][int(desc["gf"][0] * 1e6) % 6]
+    if opts:
+        kw["optimization_params"] = dict(kw.get("optimization_params") or {}, **opts)
+        ctx.label("options:" + str(opts.get("loss", "max_nfev")))
     try:
         if desc["path"] == "arrays":
             mi = _fit("arrays", pb, lb, model, meta, branch=branch, **kw)
@@ -613,8 +620,6 @@ def check_rmse(desc, ctx):
             for k, (name, (lo, hi)) in enumerate(zip(mi.model.param_names, mi.model.param_default_bounds)):
                 v = float(mi.model.params[name]) * desc["gf"][k % 6]
                 g[name] = v if lo < v < hi else float(mi.model.params[name])
-            if addp:
-                kw["optimization_params"] = {"add_point": True}
             mi = _fit("arrays", pb, lb, model, meta, branch=branch, param_guess=g, **kw)
     except CalculationError:
         ctx.label("refused:" + model)
